@@ -13,7 +13,6 @@ Examples: Typical Usage
 
 from __future__ import annotations
 
-import functools
 import inspect
 import sys
 import typing
@@ -137,8 +136,8 @@ else:
             return nref._evaluate(globalns, localns, recursive_guard)
 
 
-@functools.cache
 def _resolve_module_name(ref: str, module: str | None) -> str | None:
+    # NB: The answer depends on who is asking, so it can't be memoized.
     if module is not None:
         return module
 
@@ -146,7 +145,15 @@ def _resolve_module_name(ref: str, module: str | None) -> str | None:
     module = ref.split(".", maxsplit=1)[0]
     if module != ref:
         return module
-    # Harder path, find the actual object in the stack frame, if possible.
+    # Harder path, find the calling module which binds this name, if possible.
+    #   The name may be bound to an object defined elsewhere (e.g., an alias).
+    frame = inspect.currentframe()
+    while frame:
+        name = frame.f_globals.get("__name__") or ""
+        if ref in frame.f_globals and name.split(".", maxsplit=1)[0] != frames.PKG_NAME:
+            return name
+        frame = frame.f_back
+    # Otherwise, find the actual object in the stack frame.
     obj = frames.extract(ref)
     module = getattr(obj, "__module__", None)
     if module:
